@@ -34,15 +34,16 @@ class _ListenerProxy:
             if producer.max_calls and producer.calls_made > producer.max_calls:
                 return lambda *args, **kwargs: None
 
-        if self.__listener is not None:
-            listener = self.__listener()
+        listener = self.__listener() if self.__listener is not None else None
+        if listener is not None:
             if hasattr(listener, attr):
                 producer.state_was_updated()
                 return getattr(listener, attr)
         else:
-            # If no listener is set, still annonunce that state was changed. Setting
-            # a listener is optional but the outcome of announcing a new state is still
-            # likely expected to be the same no matter if a listener is set or not.
+            # If no listener is set (or the weak reference to it has expired), still
+            # annonunce that state was changed. Setting a listener is optional but the
+            # outcome of announcing a new state is still likely expected to be the
+            # same no matter if a listener is set or not.
             producer.state_was_updated()
 
         return lambda *args, **kwargs: None
